@@ -16,8 +16,8 @@ EXTENDS TdmsSegments, IOUtils
 CONSTANT Verbose
 Traces == ndJsonDeserialize(IOEnv.TRACE_FILE)
 
-VARIABLES tid, l, rst
-tvars == <<tid, l, rst, file, expl, ty, status>>
+VARIABLES tid, l, rst, ref
+tvars == <<tid, l, rst, ref, file, expl, ty, status>>
 Tr == Traces[tid]
 
 SetOf(s) == {s[i] : i \in DOMAIN s}
@@ -42,13 +42,26 @@ Matches(tr, st) ==
              IF p \in DOMAIN v.props THEN FunPairs(v.props[p]) = PairsOf(tr.obs.props[i][2])
              ELSE tr.obs.props[i][2] = <<>>        \* the root / an implied group never named in the file: no properties
 
-TInit == /\ tid \in DOMAIN Traces /\ l = 1 /\ rst = RInitP(PS(Traces[tid]))
+\* REFINEMENT (diagnostic, never a verdict): with the hooks on, the implementation logs for every segment its
+\* effective object list [path, has_data, number_values] and its chunk count; the model's step must produce the same
+StepRefines(im, st, n) ==
+  /\ ~st.err /\ Len(st.lists) = n
+  /\ st.ks[n] = im.num_chunks
+  /\ Len(st.lists[n]) = Len(im.objects)
+  /\ \A i \in DOMAIN im.objects :
+       /\ st.lists[n][i].p = im.objects[i][1]
+       /\ st.lists[n][i].has = im.objects[i][2]
+       /\ (st.lists[n][i].has => st.lists[n][i].n = im.objects[i][3])
+
+TInit == /\ tid \in DOMAIN Traces /\ l = 1 /\ rst = RInitP(PS(Traces[tid])) /\ ref = TRUE
          /\ file = <<>> /\ expl = <<>> /\ ty = <<>> /\ status = "ok"
 TStep == /\ l <= Len(Tr.file)
          /\ rst' = ReadSegP(PS(Tr), rst, Tr.file[l])
+         /\ ref' = (ref /\ l <= Len(Tr.impl) /\ StepRefines(Tr.impl[l], rst', l))
          /\ l' = l + 1 /\ UNCHANGED <<tid, file, expl, ty, status>>
 TSpec == TInit /\ [][TStep]_tvars
 
 Accepted == (l = Len(Tr.file) + 1 /\ Matches(Tr, rst)) => PrintT(<<"ACCEPT", Tr.id>>)
+Refined == (l = Len(Tr.file) + 1 /\ ref /\ Len(Tr.impl) = Len(Tr.file)) => PrintT(<<"REFINED", Tr.id>>)
 Progress == Verbose => PrintT(<<"AT", Tr.id, l>>)
 =============================================================================
